@@ -55,6 +55,17 @@ Theorem C07_wire_static : forall c0 cmd m now k c,
 Proof. exact wire_static. Qed.
 Print Assumptions C07_wire_static.
 
+(** MGET / JSON.MGET form: member j of the reply is committed under key j of the command with the PTTL
+    reply at the same position j (each key gets its own server expiry) *)
+Theorem C07_wire_mget : forall s cc replies now msgs i,
+  (forall j, (j < length msgs)%nat -> exists k p, nth_error s (S (i + j)) = Some k /\ nth_error replies (i + j) = Some p) ->
+  exists l, mget_calls s cc replies msgs i now = Ok l /\ length l = length msgs /\
+    forall j cp, nth_error msgs j = Some cp ->
+      exists k p, nth_error s (S (i + j)) = Some k /\ nth_error replies (i + j) = Some p /\
+                  nth_error l j = Some (SUpdate k cc (with_pttl (set_mark cp true) (m_intlen p) now)).
+Proof. intros. apply mget_calls_spec. assumption. Qed.
+Print Assumptions C07_wire_mget.
+
 (** A completed entry is returned by Flight iff the instant is strictly before its expiry; at or after
     it the call is a miss (and starts a new flight). *)
 Theorem C07_hit_iff : forall g ops k c ttl now e,
